@@ -255,16 +255,44 @@ class Repo:
                     self.modules[name] = Module(name, path, src)
                 except SyntaxError as e:
                     raise AnalysisError("cannot parse %s: %s" % (path, e))
-        from .libcanon import canon_library
-        canon_library([m.tree for m in self.modules.values()])
+        # load-time canonicalisations (9.11 - 9.14). Each pass is an optimisation of the analysis, not a premise of it: should one of them
+        # fail on some construct, its effects are undone (the trees are restored from a copy) and the analysis goes on without it -
+        # refactorings it would have absorbed may then be reported, but nothing is hidden and nothing crashes.
         from .classcanon import canon_helper_objects, canon_memo_attributes
-        self.memo_attributes = canon_memo_attributes([m.tree for m in self.modules.values()])
-        self.helper_objects_expanded = canon_helper_objects([m.tree for m in self.modules.values()])
+        from .gencanon import canon_context_managers, canon_generators
+        from .libcanon import canon_library
+        self.canon_failures: List[str] = []
+        self.memo_attributes: Dict[str, str] = {}
+        self.helper_objects_expanded: Dict[str, int] = {}
+        self.context_managers_expanded: Dict[str, str] = {}
+        self.generators_rewritten: Dict[str, str] = {}
         for m in self.modules.values():
             m.tree._modname = m.name        # type: ignore[attr-defined]
-        from .gencanon import canon_context_managers, canon_generators
-        self.context_managers_expanded = canon_context_managers([m.tree for m in self.modules.values()])
-        self.generators_rewritten = canon_generators([m.tree for m in self.modules.values()])
+
+        passes = [("library idioms", canon_library, None), ("memo attributes", canon_memo_attributes, "memo_attributes"),
+                  ("helper objects", canon_helper_objects, "helper_objects_expanded"),
+                  ("context managers", canon_context_managers, "context_managers_expanded"), ("generators", canon_generators, "generators_rewritten")]
+        skip: set = set()
+        while True:
+            failed = None
+            for name, fn, attr in passes:
+                if name in skip:
+                    continue
+                try:
+                    r = fn([m.tree for m in self.modules.values()])
+                    if attr is not None and r is not None:
+                        setattr(self, attr, r)
+                except Exception as e:       # noqa: BLE001 - any failure of a pass means: do without the pass
+                    self.canon_failures.append("%s: %s: %s" % (name, type(e).__name__, str(e)[:120]))
+                    failed = name
+                    break
+            if failed is None:
+                break
+            # start over from the source text, without the pass that failed (the trees may be half rewritten)
+            skip.add(failed)
+            for m in self.modules.values():
+                m.tree = ast.parse(m.source, filename=m.path)
+                m.tree._modname = m.name        # type: ignore[attr-defined]
         for m in self.modules.values():
             m.tree = _FlagCanon().visit(_Canon().visit(m.tree))
         for m in self.modules.values():
